@@ -1,4 +1,5 @@
 import Req.Driver.Proto
+import Req.C02.Reader
 /-!
 C02 — caller-side state machine of `req.Response` (response.go, client.go `roundTrip`
 auto-read guard, middleware.go `handleDownload`).
@@ -19,6 +20,11 @@ deriving Repr, BEq, DecidableEq
 /-- Result class of one `Read` / of `ToBytes`. -/
 inductive RErr | ok | eof | fail | closed
 deriving Repr, BEq, DecidableEq
+
+/-- Go's error convention: `ok` is the nil error. -/
+def RErr.toOpt : RErr → Option RErr
+  | .ok => none
+  | e => some e
 
 def Fin.toErr : Fin → RErr
   | .eof => .eof
@@ -118,7 +124,8 @@ def afterRoundTrip (cfg : Cfg) (status : Nat) (tb : Body) : Resp :=
   let r1 :=
     if autoRead cfg r0 then
       let (_, r) := r0.toBytes
-      { r with body := some (Body.restored (r.cache.getD [])) }
+      -- `bytes.NewReader(resp.body)`: a nil slice is the empty reader
+      { r with body := some (Body.restored (match r.cache with | some c => c | none => [])) }
     else r0
   handleDownload cfg r1
 
@@ -141,7 +148,7 @@ def Resp.step (r : Resp) : Op → Obs × Resp
     -- on error ToBytes returns (nil, err) only when the error was there before the read
     (.data d e, r')
   | .bytes => (.cached r.cache, r)
-  | .string => (.str (r.cache.getD []), r)
+  | .string => (.str (match r.cache with | some c => c | none => []), r)   -- string(nil) = ""
   | .read n =>
     match r.body with
     | none => (.unit, r)
@@ -157,11 +164,17 @@ def Resp.step (r : Resp) : Op → Obs × Resp
     | none => (.unit, r)
     | some b => (.unit, { r with body := some b.close })
 
-def Resp.run (r : Resp) : List Op → List Obs × Resp
+/-- Apply an op sequence; the trace pairs every op with what it showed the caller. -/
+def Resp.run (r : Resp) : List Op → List (Op × Obs) × Resp
   | [] => ([], r)
   | op :: ops =>
     let (o, r') := r.step op
     let (os, r'') := r'.run ops
-    (o :: os, r'')
+    ((op, o) :: os, r'')
+
+/-- `Body.read` in the `Option` error convention of `runReads` (`none` = nil error). -/
+def Body.readO (b : Body) (k : Nat) : (Bytes × Option RErr) × Body :=
+  let ((d, e), b') := b.read k
+  ((d, e.toOpt), b')
 
 end Req.C02
